@@ -51,7 +51,12 @@ func (f *Ash) Call(s *slip.Scope, args slip.List, depth int) (result slip.Object
 		slip.TypePanic(s, depth, "shift", args[1], "fixnum")
 	}
 	sh := int(shift)
-	switch ti := canonicalNumber(args[0]).(type) {
+	integer := canonicalNumber(args[0])
+	if o, ok := integer.(slip.Octet); ok {
+		// An octet is an integer, the shifted value is not limited to 8 bits.
+		integer = slip.Fixnum(o)
+	}
+	switch ti := integer.(type) {
 	case slip.Fixnum:
 		switch {
 		case sh < 0:
@@ -64,12 +69,6 @@ func (f *Ash) Call(s *slip.Scope, args slip.List, depth int) (result slip.Object
 		default:
 			var bi big.Int
 			result = canonicalInteger(bi.Lsh(big.NewInt(int64(ti)), uint(sh)))
-		}
-	case slip.Octet:
-		if sh < 0 {
-			result = slip.Octet(uint64(ti) >> -sh)
-		} else {
-			result = slip.Octet(uint64(ti) << sh)
 		}
 	case *slip.Bignum:
 		// Lsh and Rsh work on the two's complement form so a right shift
